@@ -489,6 +489,15 @@ func (d *V2) do(op Op) Resp {
 	case KTransact:
 		_, err := c.TransactWriteItems(ctx, &dynamodb.TransactWriteItemsInput{})
 		return errResp(err)
+	case KActivateNative:
+		c.ActivateNativeInterpreter()
+		return Resp{}
+	case KSetInterpreter:
+		c.SetInterpreter(interpreter.NewNativeInterpreter())
+		return Resp{}
+	case KSetICM:
+		v2.SetItemCollectionMetrics(c, map[string][]types.ItemCollectionMetrics{})
+		return Resp{}
 	case KFail:
 		switch op.Fail {
 		case "active_force":
